@@ -13,16 +13,23 @@ What is proved here (tokenizer level, `Model/Lexer.lean` = `lexer.rs`), for ALL 
   `2·len + 4` calls (every event other than end-of-file consumes input);
 * `C02_lines_in_range`: every line number reported with an event or a tokenizer error lies between
   1 and 1 + the number of newline bytes of the buffer.
-Termination of the model functions themselves is Lean's (structural recursion / fuel).
+and at the parser level (`Model/Parser.lean` = `parser.rs`: `parse_arxml`, `parse_element`, `parse_attribute_text`,
+`parse_character_data`, …; the driver answers `load` requests into an empty model with it, compared with the library
+including the kind and line of every error and warning):
+* `C02_parser_total`: for every buffer, in both modes, the run of the parser model ends with a document or with a
+  genuine tokenizer / parser error — the step budget of its loops is never exhausted (each token strictly decreases
+  the tokenizer measure; everything between two tokens leaves the tokenizer alone).
+Termination of the model functions themselves is Lean's (structural recursion / fuel); the theorems say that the fuel
+is never what ends a run.
 
-Partial: the parser level (`parse_element` and the value layer it calls) is not yet a Lean model;
-for it, and for "never panic / abort" of the real code (slice indexing, `unwrap`, stack depth), the
-claim rests on the run: exhaustive short strings over the XML token alphabet, token strings in
-valid contexts, mutations and all truncations of a valid document, random bytes, with
-`catch_unwind`, a watchdog, and a child process for pathological nesting (known finding: stack
-overflow on extreme nesting depth).
+Partial: "never panic / abort" of the real code (slice indexing, `unwrap`, stack depth) and the header check rest on
+the run: exhaustive short strings over the XML token alphabet, token strings in valid contexts, mutations and all
+truncations of a valid document, random bytes, with `catch_unwind`, a watchdog, and a child process for pathological
+nesting (known finding: stack overflow on extreme nesting depth).  `String::from_utf8_lossy` on invalid UTF-8 in string
+values / comments is outside the parser model (the model answers `unsupported`).
 -/
 import AutosarVerif.Lemmas.Lexer
+import AutosarVerif.Lemmas.ParserTotal
 
 namespace AV.C02
 open AV.Lex
@@ -35,6 +42,10 @@ theorem C02_tokenizing_terminates (buf : Bytes) : (lex buf).2.2 = true := lex_fi
 theorem C02_lines_in_range (buf : Bytes) :
     (∀ p ∈ (lex buf).1, 1 ≤ p.1 ∧ p.1 ≤ 1 + countNl buf) ∧
     (∀ le, (lex buf).2.1 = some le → 1 ≤ le.1 ∧ le.1 ≤ 1 + countNl buf) := lex_lines buf
+
+theorem C02_parser_total (S : Spec) (V : W.Env) (strict : Bool) (buf : Bytes) (firstId nmAutosar : Nat) :
+    ∀ e, (PM.runParser S V strict buf firstId nmAutosar).1 = .error e → e.kind ≠ PM.kFuel :=
+  PM.runParser_total S V strict buf firstId nmAutosar
 
 /-! non-vacuity: the model tokenises, reports errors with lines, and skips what the code skips -/
 -- "<a>\n<>" : begin element on line 1, then `InvalidElement` on line 2
